@@ -26,7 +26,7 @@ ASSUMPTIONS = [
     'goal family: quantifier wrappers (forall/exists, negated, as hypothesis, nested) x bodies over nat/int/real/type-variable/bool; arithmetic with nat subtraction, division, max/min/abs, IF, of_nat; '
     'function and set equalities; interval-membership premises; one variable name at two types in different parts of a goal; goals z3 leaves undecided (recurrence / monotonicity / additivity / involution premises over f : nat=>nat, int=>int)',
     'a disagreement is reported only with a confirmed counter-model (independent evaluator, finite model, or cvc5 agreeing with z3); otherwise it is counted inconclusive',
-    'SymPy: polynomial/rational goals in x (and y) with numerals in [-2,3], closed/open interval premises; SymPy itself is a black box',
+    'SymPy: polynomial/rational goals in x (and y) with numerals in [-2,3], closed/open interval premises; SymPy itself is a black box; goals with exp / sin / cos are judged only by exact evaluation at x = 0 (otherwise inconclusive)',
     'z3wrapper.check_z3 must be True',
     'a global z3 soft timeout of 4 s is set in the harness process (the bridge sets none); a goal the bridge cannot decide in that time counts as rejected',
 ]
@@ -38,6 +38,7 @@ BUDGET_S = {'quick': 240, 'thorough': 900}
 
 def bounds(tier):
     return {'z3_goals': 'all templates (see goal_family) ' + ('' if tier == 'thorough' else '; depth-2 propositional combinations sampled 1500'),
+            'sympy_transcendental_denominators': '%d goals d / d ~ c under an interval premise, d one of 12 expressions in x, exp x, sin x, cos x; refuted only by exact evaluation at x = 0' % len(sympy_trans_goals()),
             'z3_goal_sequences': 'every family goal that prints alike at int / real and at nat, decided in that order in one process (verdicts must not carry over between goals)',
             'z3_undecided_goals': '%d goals with a quantified premise over an uninterpreted f (6 premises x 7 conclusions x nat/int%s); invalid ones refuted by instantiating f with one of 8 concrete functions' % (
                 (168, ', as implication and as sequent') if tier == 'thorough' else (42, ', every second one')),
@@ -414,6 +415,109 @@ def check_sympy_goal(hyps, goal, out, rec):
         out['inconclusive'] += 1
 
 
+# ------------------------------------------------------------------ SymPy goals with transcendental denominators
+
+def sympy_trans_goals():
+    """([premise], goal): quotients whose denominator is transcendental in the interval variable (with and without a zero inside the
+    interval).  The oracle for these is a point refutation: the goal evaluated exactly at x = 0 (exp 0 = 1, sin 0 = 0, cos 0 = 1,
+    log 1 = 0, t / 0 = 0) while the premise holds there."""
+    if 'trans' in _G:
+        return _G['trans']
+    from kernel.type import RealType, TFun, TConst, BoolType
+    from kernel.term import Var, Number, Const, Eq, Not
+    x = Var('x', RealType)
+    N = lambda v: Number(RealType, v)
+    fn = lambda nm: Const(nm, TFun(RealType, RealType))
+    mk = lambda nm, l, h: Const(nm, TFun(RealType, RealType, TConst('set', RealType)))(N(l), N(h))
+    memr = lambda e, s_: Const('member', TFun(RealType, TConst('set', RealType), BoolType))(e, s_)
+    ex, sn, cs = fn('exp')(x), fn('sin')(x), fn('cos')(x)
+    denoms = [x + ex - N(1), x - sn, sn, ex - N(1), x * ex, ex, cs, ex + N(1), sn + N(2), x + sn, cs - N(1), N(2) * x - sn]
+    out = []
+    for (l, h) in ((-1, 1), (0, 1), (Fraction(1, 2), 1)):
+        for nm in ('real_closed_interval', 'real_open_interval'):
+            prem = memr(x, mk(nm, l, h))
+            for d in denoms:
+                out += [([prem], d / d > N(0)), ([prem], d / d >= N(1)), ([prem], Eq(d / d, N(1))), ([prem], Not(Eq(d / d, N(0)))), ([prem], Eq(N(1) / d * d, N(1)))]
+    # square roots: SymPy cancels sqrt(t) ** 2 and sqrt(t) * sqrt(t) for every t (holsmt interprets sqrt; decided by z3 + cvc5)
+    sq = fn('sqrt')
+    from kernel.term import Nat
+    from kernel import term as T
+    p2 = lambda e: T.nat_power(RealType)(e, Nat(2))
+    sgoals = [Eq(p2(sq(x)), x), Eq(sq(x) * sq(x), x), Eq(sq(x * x), x), Eq(sq(p2(x)), x), sq(x) >= N(0), Eq(p2(sq(x - N(1))), x - N(1)), Eq(sq(x) * sq(x) + N(1), x + N(1)),
+              Eq(p2(sq(N(2))), N(2)), Eq(p2(sq(N(-2))), N(-2)), Eq(sq(p2(x)), x), sq(x * x) >= N(0), Eq(p2(sq(x * x)), x * x)]
+    for g in sgoals:
+        out.append(([], g))
+        for (l, h) in ((-1, 1), (0, 1), (1, 3)):
+            out.append(([memr(x, mk('real_closed_interval', l, h))], g))
+    _G['trans'] = out
+    return out
+
+
+def point_eval(t, xval=0):
+    """Exact truth value of t at x := xval (a rational) or None when the evaluator cannot decide."""
+    from kernel.type import RealType
+    from kernel.term import Var, Number, Lambda
+    from vlib.holsmt import ground_eval, Unsupported
+    x = Var('x', RealType)
+    g = Lambda(x, t)(Number(RealType, xval)).beta_conv()
+
+    def simp(u):
+        if u.is_comb():
+            h, args = u.strip_comb()
+            args = [simp(a) for a in args]
+            if h.is_const() and h.name in ('exp', 'sin', 'cos', 'log') and len(args) == 1:
+                try:
+                    v = ground_eval(args[0])
+                except Unsupported:
+                    raise
+                table = {('exp', 0): 1, ('sin', 0): 0, ('cos', 0): 1, ('log', 1): 0}
+                if (h.name, v) in table:
+                    return Number(RealType, table[(h.name, v)])
+                raise Unsupported('%s at %s' % (h.name, v))
+            return h(*args)
+        return u
+    try:
+        return ground_eval(simp(g))
+    except Unsupported:
+        return None
+    except Exception:
+        return None
+
+
+def subterms_of(t):
+    yield t
+    if t.is_comb():
+        yield from subterms_of(t.fun)
+        yield from subterms_of(t.arg)
+    elif t.is_abs():
+        yield from subterms_of(t.body)
+
+
+def check_trans_goal(j, out):
+    hyps, goal = sympy_trans_goals()[j]
+    out['evals'] += 1
+    th = bridge_sympy(hyps, goal)
+    if th is None:
+        return
+    out['keys'].add('sympyT|%d' % j)
+    if os.environ.get('VERIF_TWIN'):
+        out['cex'].append({'part': 'sympyT', 'j': j, 'kind': 'twin'})
+        return
+    if any(t.is_comb('sqrt', 1) for t in subterms_of(goal)):
+        v = oracle().valid(hyps, goal)
+        if v.status == 'invalid':
+            out['cex'].append({'part': 'sympyT', 'j': j, 'kind': 'sympy-accepts-invalid', 'detail': 'SymPyMacro.eval accepts %s%s, which fails for %s' % (
+                ('%s |- ' % ', '.join(map(str, hyps))) if hyps else '', goal, v.model)})
+        elif v.status == 'unknown':
+            out['inconclusive'] += 1
+        return
+    if all(point_eval(h) is True for h in hyps) and point_eval(goal) is False:
+        out['cex'].append({'part': 'sympyT', 'j': j, 'kind': 'sympy-accepts-invalid',
+                           'detail': 'SymPyMacro.eval accepts %s |- %s, which fails at x = 0 (exp 0 = 1, sin 0 = 0, cos 0 = 1, t / 0 = 0)' % (', '.join(map(str, hyps)), goal)})
+    else:
+        out['inconclusive'] += 1
+
+
 # ------------------------------------------------------------------ units
 
 def units(tier, seed):
@@ -426,6 +530,9 @@ def units(tier, seed):
         us.append(('z3c', seed, lo, 100))
     for lo in range(0, len(z3u_goals(tier)), 3):
         us.append(('z3u', tier, lo, lo + 3))
+    nt = len(sympy_trans_goals())
+    for lo in range(0, nt, 20):
+        us.append(('sympyT', lo, min(nt, lo + 20)))
     ng = len(z3_order_groups())
     for lo in range(0, ng, 25):
         us.append(('z3o', lo, min(ng, lo + 25)))
@@ -454,6 +561,10 @@ def run_unit(u):
             lab, hyps, goal = gs[i]
             check_z3_goal(lab, hyps, goal, out, {'part': 'z3u', 'tier': u[1], 'index': i})
         out['samples'].append({'z3_goal': str(gs[u[2]][2]), 'label': gs[u[2]][0]})
+    elif u[0] == 'sympyT':
+        for j in range(u[1], u[2]):
+            check_trans_goal(j, out)
+        out['samples'].append({'sympy_goal': str(sympy_trans_goals()[u[1]][1]), 'premises': [str(h) for h in sympy_trans_goals()[u[1]][0]]})
     elif u[0] == 'z3o':
         for i in range(u[1], u[2]):
             run_order_group(i, out)
@@ -514,6 +625,10 @@ def replay(c):
     if part == 'flags':
         from prover import z3wrapper
         return not (z3wrapper.check_z3 is True and z3wrapper.z3_loaded), c['detail']
+    if part == 'sympyT':
+        out = {'evals': 0, 'keys': set(), 'cex': [], 'inconclusive': 0}
+        check_trans_goal(c['j'], out)
+        return bool(out['cex']), (out['cex'][0]['detail'] if out['cex'] else 'not reproduced')
     if part == 'z3':
         lab, hyps, goal = z3_goals()[c['index']]
     elif part == 'z3o':
